@@ -8,6 +8,12 @@ Case kinds (all through the real classes of /repo):
   partition the same data set fed through every composition into batches         -> Welford.acase
   rejection real elfi.Rejection(...).sample with an AdaptiveDistance and an OutputPool recording the
             simulated summaries; replayed as a script with only the end state observed -> Welford.acase
+  sampler   real sampler rounds on a model with an AdaptiveDistance node whose simulator logs every row it
+            produces: consecutive elfi.Rejection runs (n_sim / quantile / threshold objectives, through
+            sample() or a manual set_objective/iterate/extract_result loop with the node's store observed
+            after every batch) or one elfi.AdaptiveDistanceSMC run (iterate loop); replayed as the script
+            OInit, OBatch(all logged rows of the batch, acceptance mask)..., OUpdate, OSorted, OGen per
+            round                                                                       -> Welford.acase
 """
 import itertools
 from functools import partial
@@ -77,7 +83,7 @@ def worst_conditioning(ops):
     worst = 0.0
     rows = None
     for op in ops:
-        if op[0] == 'add':
+        if op[0] in ('add', 'batch'):
             try:
                 M = len(op[1][0]['v'])
                 data = np.hstack([np.array(x['v'], dtype=float).reshape(M, -1) for x in op[1]])
@@ -119,6 +125,43 @@ def call_cityblock_vec(X, Y):
 
 def call_euclid_col(X, Y):
     return np.sqrt(((X - Y) ** 2).sum(axis=1)).reshape(-1, 1)
+
+
+def take_cols(lo, hi, scalar, y):
+    """summary operation of the sampler models: a pure function of the simulator output"""
+    return y[:, lo].copy() if scalar else y[:, lo:hi].copy()
+
+
+def sampler_slices(shapes):
+    out, c = [], 0
+    for w in shapes:
+        out.append((c, c + max(w, 1), w == 0))
+        c += max(w, 1)
+    return out
+
+
+def sampler_sim_rows(mu, noise, case):
+    return np.array(case['off']) + mu[:, None] * np.array(case['coef']) + noise * np.array(case['sd'])
+
+
+def build_sampler_model(case, log):
+    """uniform prior -> simulator (logs every batch it produces) -> 1-3 summaries (column slices) ->
+    AdaptiveDistance"""
+    import elfi
+    W = len(case['sd'])
+    m = elfi.ElfiModel()
+    mu = elfi.Prior('uniform', 0, 4, model=m, name='mu')
+
+    def sim(mu, batch_size=1, random_state=None):
+        y = sampler_sim_rows(np.asarray(mu, dtype=float).reshape(-1), random_state.randn(batch_size, W), case)
+        log.append(y.copy())
+        return y
+    Y = elfi.Simulator(sim, mu, observed=np.array([case['obs']], dtype=float), name='Y')
+    sums = []
+    for i, (lo, hi, sc) in enumerate(sampler_slices(case['shapes'])):
+        sums.append(elfi.Summary(partial(take_cols, lo, hi, sc), Y, name='s%d' % i))
+    ad = elfi.AdaptiveDistance(*sums, name='ad')
+    return m, ad, [x.name for x in sums]
 
 
 class C12(PropCheck):
@@ -204,6 +247,7 @@ class C12(PropCheck):
         yield from self.gen_adaptive(110 if q else 1500)
         yield from self.gen_partition(3 if q else 10, 6 if q else 8)
         yield from self.gen_rejection(14 if q else 150)
+        yield from self.gen_sampler(26 if q else 300)
         yield from self.gen_degenerate(6 if q else 40)
 
     def gen_dist(self, n):
@@ -369,6 +413,55 @@ class C12(PropCheck):
                        rounds=rounds, extra_batches=r.randint(0, 2),
                        sd=[r.choice([1.0, 10.0, 0.1]) for _ in range(3)])
 
+    def gen_sampler(self, n):
+        """sampler rounds on a model whose simulator logs every row: the adaptation data of a round are ALL
+        rows simulated in it, whatever the objective (n_sim / quantile / thresholds), batch size or mode"""
+        r = self.rng
+        for _ in range(n):
+            driver = r.choice(['rejection', 'rejection', 'smc'])
+            shapes = r.choice([[0], [0, 2], [3], [1, 0], [0, 0], [2, 0, 1]])
+            W = sum(max(w, 1) for w in shapes)
+            sd = [r.choice([1.0, 10.0, 0.1, 0.5]) for _ in range(W)]
+            coef = [r.choice([1.0, 1.0, -1.0, 3.0, 0.0]) for _ in range(W)]
+            off = [r.choice([0.0, 0.0, 2.0, -5.0]) for _ in range(W)]
+            obs = [round(off[j] + 2 * coef[j] + r.uniform(-1, 1) * sd[j], 3) for j in range(W)]
+            case = dict(kind='sampler', driver=driver, shapes=shapes, sd=sd, coef=coef, off=off, obs=obs,
+                        seed=r.randrange(10 ** 6))
+            if driver == 'rejection':
+                rounds = []
+                for k in range(r.choice([1, 2, 2, 3])):
+                    b = r.choice([1, 2, 3, 4, 7, 10])
+                    ns = r.randint(1, 6)
+                    obj = r.choice(['n_sim', 'quantile', 'threshold'] if k == 0 else
+                                   ['n_sim', 'quantile', 'threshold', 'threshold', 'threshold'])
+                    spec = dict(batch_size=b, n_samples=ns, objective=obj, mode=r.choice(['sample', 'iterate']))
+                    if obj == 'n_sim':
+                        spec['n_sim'] = max(ns, 2, b * r.randint(1, 4) - r.choice([0, 0, 1]))
+                    elif obj == 'quantile':
+                        spec['quantile'] = r.choice([0.25, 0.5, 0.99])
+                    else:
+                        spec['q'] = r.choice([0.3, 0.5, 0.8])
+                        # which of the k+1 nested distances get a finite threshold (at least one)
+                        finite_ = [r.random() < 0.4 for _ in range(k + 1)]
+                        finite_[r.choice([k, k, r.randrange(k + 1)])] = True
+                        spec['finite'] = finite_
+                    rounds.append(spec)
+                    self.bump('sampler:rejection:objective=%s' % obj)
+                    self.bump('sampler:rejection:batch_size=%d' % b)
+                    self.bump('sampler:rejection:mode=%s' % spec['mode'])
+                case['rounds'] = rounds
+                self.bump('sampler:rejection:rounds=%d' % len(rounds))
+            else:
+                case['batch_size'] = r.choice([1, 2, 3, 5, 8])
+                case['n_samples'] = r.randint(2, 5)
+                case['rounds'] = r.choice([2, 2, 3])
+                case['quantile'] = r.choice([0.5, 0.34, 0.75])
+                self.bump('sampler:smc:batch_size=%d' % case['batch_size'])
+                self.bump('sampler:smc:rounds=%d' % case['rounds'])
+            self.bump('sampler:driver=%s' % driver)
+            self.bump('sampler:width=%d' % W)
+            yield case
+
     def gen_degenerate(self, n):
         """rounds with a constant column (scale 0): outside the statement; only 'does not raise' is recorded"""
         r = self.rng
@@ -530,6 +623,190 @@ class C12(PropCheck):
             obs[-1].append(bool(member))
         return dict(obs=obs, ops=ops, observed=observed)
 
+    # ---- real sampler rounds ---------------------------------------------------------------------------
+    def node_obs_add(self, sampler):
+        """store and scale of the adaptive node of the sampler's own model (samplers work on a copy of the
+        model: the store / w / distance_functions lists are shared with the user's node, 'scale' is not)"""
+        if sampler is None:
+            return ['skip']
+        ad = sampler.model['ad']
+        n, mean, m2 = self.observe_store(ad)
+        return ['add', n, mean, m2, np.atleast_1d(ad.state['scale']).astype(float).tolist()]
+
+    def node_obs_update(self, ad):
+        return ['update', np.atleast_1d(ad.state['w'][-1]).astype(float).tolist(), len(ad.state['distance_functions']),
+                self.store_zero(ad) and len(ad.state['w']) == len(ad.state['distance_functions'])]
+
+    def impl_sampler(self, case):
+        import elfi
+        log = []
+        m, ad, names = build_sampler_model(case, log)
+        slices = sampler_slices(case['shapes'])
+        obs_row = np.array([case['obs']], dtype=float)
+        observed = []
+        for (lo, hi, sc) in slices:
+            o = take_cols(lo, hi, sc, obs_row)
+            # the observed summaries as the node sees them: (1,) for a scalar summary, (1, w) for a vector one
+            observed.append(enc(o))
+
+        def summaries_of(y):
+            return [enc(take_cols(lo, hi, sc, y)) for (lo, hi, sc) in slices]
+
+        def values_of(y):
+            return {nm: take_cols(lo, hi, sc, y) for nm, (lo, hi, sc) in zip(names, slices)}
+
+        def nested(y):
+            """all nested distances of the rows y, as an (len(y), number of functions) array"""
+            d = np.asarray(ad.generate(len(y), with_values=values_of(y)), dtype=float)
+            return d.reshape(len(y), -1)
+
+        # probe rows: fixed, from a harness-side stream
+        hrs = np.random.RandomState(case['seed'] + 1)
+        probe = sampler_sim_rows(hrs.uniform(0, 4, 3), hrs.randn(3, len(case['sd'])), case)
+        ops, obs, problems, info = [], [], [], dict(rejected_rows=0, empty_batches=0, rows=0, thr_rounds=0)
+        pending_masks = []        # (index into ops, rows of the round, thresholds) - masks are filled in after the round
+
+        def close_round(batch_idx, rows, thr):
+            """acceptance mask of every batch of a finished round: the distances that existed during the round
+            (unchanged by the update) against the round's thresholds"""
+            D = nested(rows)
+            acc = np.ones(len(rows), dtype=bool)
+            if thr is not None:
+                t = np.atleast_1d(np.asarray(thr, dtype=float))
+                acc = np.all(D[:, :len(t)] <= t, axis=1)
+                info['thr_rounds'] += 1
+            a = 0
+            for i in batch_idx:
+                k = len(ops[i][1][0]['v'])
+                ops[i][2] = [bool(x) for x in acc[a:a + k]]
+                if not acc[a:a + k].any():
+                    info['empty_batches'] += 1
+                a += k
+            info['rejected_rows'] += int((~acc).sum())
+            info['rows'] += len(rows)
+
+        def after_update(returned, dcol, rows):
+            """observations once a round's update_distance has run: weights, returned distance column, probe"""
+            ops.append(['sorted', summaries_of(returned)])
+            member = all(any(np.array_equal(rw, x) for x in rows) for rw in returned)
+            obs.append(['sorted', np.asarray(dcol, dtype=float).reshape(-1).tolist(), bool(member)])
+            ops.append(['gen', summaries_of(probe)])
+            obs.append(['gen', enc(ad.generate(len(probe), with_values=values_of(probe)))])
+
+        if case['driver'] == 'rejection':
+            prev_rows = None
+            for k, spec in enumerate(case['rounds']):
+                b = spec['batch_size']
+                rej = elfi.Rejection(m, 'ad', batch_size=b, seed=case['seed'] + 17 * k)
+                rej.bar = False
+                ops.append(['init'])
+                obs.append(['init', self.store_zero(ad)])
+                kw, thr = {}, None
+                if spec['objective'] == 'n_sim':
+                    kw['n_sim'] = spec['n_sim']
+                elif spec['objective'] == 'quantile':
+                    kw['quantile'] = spec['quantile']
+                else:
+                    if prev_rows is None:
+                        ref = sampler_sim_rows(hrs.uniform(0, 4, 200), hrs.randn(200, len(case['sd'])), case)
+                    else:
+                        ref = prev_rows
+                    D = nested(ref)
+                    q = spec['q']
+                    while True:
+                        thr = [float(np.quantile(D[:, c], q)) if f else np.inf for c, f in enumerate(spec['finite'])]
+                        if np.mean(np.all(D <= np.array(thr), axis=1)) >= 0.15 or q > 0.99:
+                            break
+                        q = (q + 1) / 2
+                    kw['threshold'] = thr[0] if len(thr) == 1 else thr
+                del log[:]
+                batch_idx = []
+                if spec['mode'] == 'sample':
+                    res = rej.sample(spec['n_samples'], bar=False, **kw)
+                    for y in log:
+                        batch_idx.append(len(ops))
+                        ops.append(['batch', summaries_of(y), None])
+                        obs.append(['skip'])
+                else:
+                    rej.set_objective(spec['n_samples'], **kw)
+                    while not rej.finished:
+                        nl = len(log)
+                        rej.iterate()
+                        if len(log) != nl + 1:
+                            raise RuntimeError('one iterate() did not simulate exactly one batch')
+                        batch_idx.append(len(ops))
+                        ops.append(['batch', summaries_of(log[-1]), None])
+                        obs.append(self.node_obs_add(rej))
+                    rej.batches.cancel_pending()
+                    res = rej.extract_result()
+                rows = np.vstack(log)
+                if len(rows) != rej.state['n_sim'] or len(log) != rej.state['n_batches']:
+                    problems.append('round %d: the simulator produced %d rows in %d batches, the sampler counts n_sim=%d in %d batches'
+                                    % (k, len(rows), len(log), rej.state['n_sim'], rej.state['n_batches']))
+                ops.append(['update'])
+                obs.append(self.node_obs_update(ad))
+                close_round(batch_idx, rows, thr)
+                ret = np.column_stack([np.asarray(res.outputs[nm]).reshape(len(res.outputs['ad']), -1) for nm in names])
+                after_update(ret, res.outputs['ad'], rows)
+                prev_rows = rows
+        else:
+            b = case['batch_size']
+            smc = elfi.AdaptiveDistanceSMC(m, 'ad', batch_size=b, seed=case['seed'])
+            smc.bar = False
+            smc.set_objective(case['n_samples'], case['rounds'], quantile=case['quantile'])
+            ops.append(['init'])
+            obs.append(['init', self.store_zero(ad)])
+            nw = len(ad.state['w'])
+            round_info = []           # per finished round: (batch op indices, rows, index of the 'sorted' placeholder)
+            batch_idx, chunk = [], []
+
+            def round_done():
+                ops.append(['update'])
+                obs.append(self.node_obs_update(ad))
+                ops.append(None)          # the population's rows and distance column: known at the end
+                obs.append(None)
+                ops.append(['gen', summaries_of(probe)])
+                obs.append(['gen', enc(ad.generate(len(probe), with_values=values_of(probe)))])
+                round_info.append((list(batch_idx), np.vstack(chunk), len(ops) - 2))
+                del batch_idx[:]
+                del chunk[:]
+
+            while not smc.finished:
+                nl = len(log)
+                smc.iterate()
+                if len(log) != nl + 1:
+                    raise RuntimeError('one iterate() did not simulate exactly one batch')
+                batch_idx.append(len(ops))
+                chunk.append(log[-1])
+                ops.append(['batch', summaries_of(log[-1]), None])
+                if len(ad.state['w']) != nw:
+                    # this batch finished a population: update_distance has run and a new round has started
+                    nw = len(ad.state['w'])
+                    obs.append(['skip'])
+                    round_done()
+                    ops.append(['init'])
+                    obs.append(['init', self.store_zero(ad)])
+                else:
+                    obs.append(self.node_obs_add(getattr(smc, '_rejection', None)))
+            smc.batches.cancel_pending()
+            res = smc.extract_result()
+            round_done()
+            pops = res.populations
+            if len(pops) != len(round_info):
+                raise RuntimeError('%d populations but %d adaptation rounds observed' % (len(pops), len(round_info)))
+            thr = None
+            for k, (pop, (bidx, rows, at)) in enumerate(zip(pops, round_info)):
+                if pop.n_sim != len(rows):
+                    problems.append('population %d: the simulator produced %d rows, the sampler counts n_sim=%d'
+                                    % (k, len(rows), pop.n_sim))
+                close_round(bidx, rows, thr)
+                ret = np.column_stack([np.asarray(pop.outputs[nm]).reshape(len(pop.outputs['ad']), -1) for nm in names])
+                member = all(any(np.array_equal(rw, x) for x in rows) for rw in ret)
+                ops[at] = ['sorted', summaries_of(ret)]
+                obs[at] = ['sorted', np.asarray(pop.outputs['ad'], dtype=float).reshape(-1).tolist(), bool(member)]
+                thr = [np.inf] + [p.threshold for p in pops[:k + 1]]
+        return dict(obs=obs, ops=ops, observed=observed, problems=problems, info=info)
+
     # ---- python-side clauses -----------------------------------------------------------------------
     def py_check(self, case, out):
         fails = []
@@ -542,7 +819,10 @@ class C12(PropCheck):
                 fails.append(('kw_rest', 'non-cdist keyword (name) did not reach the node: %r' % out['name']))
             if out['stored'] != case['metric']:
                 fails.append(('kw_stored', "state['distance'] != given metric"))
-        if case['kind'] == 'rejection':
+        if case['kind'] == 'sampler':
+            for msg in out['problems']:
+                fails.append(('round_rows', 'the rows simulated in a round are not the rows the sampler accounts for: ' + msg))
+        if case['kind'] in ('rejection', 'sampler'):
             for o in out['obs']:
                 if o[0] == 'sorted' and not o[-1]:
                     fails.append(('rejection_rows', 'a returned summary row is not one of the simulated rows'))
@@ -551,7 +831,7 @@ class C12(PropCheck):
                 if o[0] == 'crash':
                     fails.append(('crash', 'a call on the AdaptiveDistance node raised: ' + o[1].split(':')[0] + ': ' + o[1].split(':')[1]))
                     break
-        if case['kind'] in ('adaptive', 'rejection') and case.get('bad') != 'degenerate' and not obs_finite(out['obs']):
+        if case['kind'] in ('adaptive', 'rejection', 'sampler') and case.get('bad') != 'degenerate' and not obs_finite(out['obs']):
             fails.append(('nonfinite', 'non-finite state or distance although every column of every round has positive variance'))
         if case['kind'] == 'dist' and not finite(out['out']):
             fails.append(('nonfinite', 'non-finite distance for finite inputs'))
@@ -578,6 +858,16 @@ class C12(PropCheck):
             return key if case['kwargs'] else None
         if case['kind'] == 'rejection':
             return key
+        if case['kind'] == 'sampler':
+            info = out['info']
+            self.bump('sampler:outcome:rows<=%d' % (10 * (1 + info['rows'] // 10)))
+            self.bump('sampler:outcome:some_row_rejected=%s' % (info['rejected_rows'] > 0))
+            self.bump('sampler:outcome:some_batch_accepts_nothing=%s' % (info['empty_batches'] > 0))
+            nb, multi = 0, False
+            for o in out['ops']:
+                nb = nb + 1 if o[0] == 'batch' else (0 if o[0] in ('update', 'init') else nb)
+                multi = multi or nb >= 2
+            return key if multi else None
         ops = case['ops']
         multi = False
         cnt = 0
@@ -612,6 +902,8 @@ class C12(PropCheck):
     def cop(self, op):
         if op[0] == 'add':
             return '(OAdd %s)' % clist([carr(x) for x in op[1]])
+        if op[0] == 'batch':
+            return '(OBatch %s %s)' % (clist([carr(x) for x in op[1]]), clist([cbool(x) for x in op[2]]))
         if op[0] == 'update':
             return 'OUpdate'
         if op[0] == 'init':
@@ -657,7 +949,7 @@ class C12(PropCheck):
                 mname = [v for k, v in out['out'] if k == 'metric']
                 impl = '(Some (%s, %s))' % (cstr(mname[0] if mname else ''), clist(['(%s, %s)' % (cstr(k), cvec(v)) for k, v in rest]))
             return '(CK {| k_metric := %s; k_kwargs := %s; k_impl := %s |})' % (cstr(case['metric']), kws, impl)
-        if kind == 'rejection':
+        if kind in ('rejection', 'sampler'):
             ops, obs, observed = out['ops'], [o[:-1] if o[0] == 'sorted' else o for o in out['obs']], out['observed']
         else:
             if case['bad'] == 'degenerate':
